@@ -234,10 +234,11 @@ func normalizeMsg(m []any) []any {
 
 // Line is one step's observation in compared form.
 type Line struct {
-	Out    map[string][][]any `json:"out"`
-	Closed []int              `json:"closed"`
-	Panic  any                `json:"panic"`
-	Note   string             `json:"note,omitempty"`
+	Out    map[string][][]any        `json:"out"`
+	Closed []int                     `json:"closed"`
+	Panic  any                       `json:"panic"`
+	Note   string                    `json:"note,omitempty"`
+	Sizes  map[string]map[string]int `json:"sizes,omitempty"`
 }
 
 func (w *world) line(out map[int][]wamp.Message, closed []int, note string) Line {
@@ -358,12 +359,46 @@ func sortIntLists(v any) any {
 // (session, request) pairs are calls of wamp.* procedures: integer lists in their
 // results are sorted.  leaving[i] lists sessions whose departure starts in step i:
 // only GOODBYE/ABORT to them are compared from then on.
+// relevant says whether a message takes part in the comparison for a property:
+// each routing property is compared on the messages its statement is about, so
+// that a change to the dealer does not alarm the pub/sub property and vice versa.
+func relevant(prop string, m []any) bool {
+	code := int(num(m[0]))
+	errType := -1
+	if code == 8 && len(m) > 1 {
+		errType = int(num(m[1]))
+	}
+	in := func(x int, set ...int) bool {
+		for _, y := range set {
+			if x == y {
+				return true
+			}
+		}
+		return false
+	}
+	switch prop {
+	case "C01":
+		return in(code, 17, 33, 35, 36) || in(errType, 16, 32, 34)
+	case "C02":
+		return code == 50 || errType == 48
+	case "C03":
+		return in(code, 65, 67, 68, 50) || in(errType, 64, 66, 48)
+	case "C13":
+		return in(code, 69, 50) || in(errType, 48, 49)
+	}
+	return true
+}
+
 func canonLines(lines []Line, metaReq map[string]bool) []Line {
+	return canonLinesFor("", lines, metaReq)
+}
+
+func canonLinesFor(prop string, lines []Line, metaReq map[string]bool) []Line {
 	rn := &renumber{}
 	gone := map[string]bool{}
 	res := make([]Line, len(lines))
 	for i, l := range lines {
-		nl := Line{Out: map[string][][]any{}, Closed: l.Closed, Panic: l.Panic, Note: l.Note}
+		nl := Line{Out: map[string][][]any{}, Closed: l.Closed, Panic: l.Panic, Note: l.Note, Sizes: l.Sizes}
 		for _, k := range l.Closed {
 			gone[fmt.Sprint(k)] = true
 		}
@@ -378,6 +413,9 @@ func canonLines(lines []Line, metaReq map[string]bool) []Line {
 				m = normalizeMsg(m)
 				code := int(num(m[0]))
 				if gone[k] && code != 3 && code != 6 {
+					continue
+				}
+				if code != 3 && code != 6 && !relevant(prop, m) {
 					continue
 				}
 				if code == 50 && len(m) > 1 && metaReq[k+"/"+jsonKey(m[1])] {
